@@ -747,7 +747,9 @@ class Machine:
                     for st3, flag in (r if r is not None else [(st2, None)]):
                         res.append((st3, 'stop' if flag is None else flag))
             elif kind == 'block':
-                th2.at_point = ('blocked', o[2]); res.append((st2, 'stop'))
+                if o[2] != 'self-deadlock':
+                    raise InternalError('thread blocks on a lock held by another thread: schedule points must lie outside lock regions')
+                th2.stack.clear(); th2.result = ('deadlock',); res.append((st2, 'stop'))
             else:
                 raise InternalError('outcome ' + kind)
         return res
